@@ -43,6 +43,7 @@ type xStmt struct {
 	Arg    int      // callf/callm argument (when the callee has a parameter)
 	HasArg bool
 	Shows  []string // showall: names displayed
+	Multi  bool     // rendered as an expression statement that spans two physical lines
 	Line   int    // physical line (1-based) assigned by the renderer
 }
 
@@ -355,7 +356,7 @@ func (g *xGen) stmtsIn(b *xBody, fs []*xBody, cs []*xClass, n int, depth int, to
 		switch {
 		case k <= 2:
 			g.probes++
-			out = append(out, &xStmt{Kind: "probe", Num: g.probes})
+			out = append(out, &xStmt{Kind: "probe", Num: g.probes, Multi: g.t.Draw(5) == 4})
 		case k == 3:
 			out = append(out, &xStmt{Kind: "disp", Text: fmt.Sprintf("%s·%d", b.Name, g.t.Draw(90))})
 		case k == 4 || k == 15:
@@ -386,6 +387,8 @@ func (g *xGen) stmtsIn(b *xBody, fs []*xBody, cs []*xClass, n int, depth int, to
 			if f.Param != "" {
 				st.HasArg, st.Arg = true, g.t.Draw(50)
 			}
+			// one call in four is the second argument of a 显示 that continues on the next line
+			st.Multi = g.t.Draw(4) == 3
 			out = append(out, st)
 			afterCall()
 		case k == 8 && len(cs) > 0:
@@ -517,7 +520,11 @@ func (x *xRender) stmts(indent int, ss []*xStmt) {
 		x.noise(indent)
 		switch s.Kind {
 		case "probe":
-			s.Line = x.emit(indent, fmt.Sprintf("（探针：%d）", s.Num))
+			if s.Multi {
+				s.Line = x.emit(indent, fmt.Sprintf("（探针：%d、\n%s0）", s.Num, strings.Repeat("\t", indent+1)))
+			} else {
+				s.Line = x.emit(indent, fmt.Sprintf("（探针：%d）", s.Num))
+			}
 		case "disp":
 			s.Line = x.emit(indent, fmt.Sprintf("（显示：“%s”）", s.Text))
 		case "let":
@@ -535,8 +542,12 @@ func (x *xRender) stmts(indent int, ss []*xStmt) {
 			if s.HasArg {
 				call = fmt.Sprintf("（%s：%d）", s.Fn, s.Arg)
 			}
-			s.Line = x.emit(indent, fmt.Sprintf("令%s = %s", s.Var, call))
-			x.emit(indent, fmt.Sprintf("（显示：“%s=”、%s）", s.Var, s.Var))
+			if s.Multi {
+				s.Line = x.emit(indent, fmt.Sprintf("（显示：“%s=”、\n%s%s）", s.Var, strings.Repeat("\t", indent+1), call))
+			} else {
+				s.Line = x.emit(indent, fmt.Sprintf("令%s = %s", s.Var, call))
+				x.emit(indent, fmt.Sprintf("（显示：“%s=”、%s）", s.Var, s.Var))
+			}
 		case "callm":
 			call := fmt.Sprintf("以%s（%s）", s.Obj, s.Fn)
 			if s.HasArg {
@@ -829,7 +840,9 @@ func (m *xRef) run(ss []*xStmt) (ret *xVal, ex *xRaise) {
 			if e != nil {
 				return nil, e
 			}
-			fr.declare(s.Var, v)
+			if !s.Multi {
+				fr.declare(s.Var, v)
+			}
 			m.display = append(m.display, s.Var+"= "+v.String())
 		case "callm":
 			o := fr.get(s.Obj).obj
